@@ -72,6 +72,7 @@ def case_for(c, model, cid, witness=()):
         'allowed_raises': list(c.raises),
         'reads': [[p, rd[0], rd[1], rd[2] if len(rd) > 2 else None] for p, rd in c.reads.items()],
         'witness': list(witness),
+        'stubs': [_BYNAME[u].target for u in c.use if u in _BYNAME],
     }
 
 
@@ -79,6 +80,8 @@ def confirm(c, short, obs):
     """Did the native run exhibit the failure of obligation `short` (name without contract prefix)?"""
     if obs is None or 'error' in obs:
         return False, 'native rebuild/run error: %s' % (obs or {}).get('error', '?')[-300:]
+    if obs.get('script_exhausted'):
+        return False, 'the path starts from a havocked loop state: the oracle script does not replay from function entry'
     if short == 'raises':
         if obs['outcome'] == 'raise' and not obs.get('exc_allowed'):
             return True, '%s escapes at %s: %s' % (obs['exc_class'], obs.get('exc_where'), obs.get('exc_msg'))
@@ -160,7 +163,7 @@ def report(a, seed, mine, results, t0):
     ob = {}          # name -> dict(status counts, instances)
     failing = []     # (contract, obligation dict)
     for c, r in zip(mine, results):
-        for u in r.undecided:
+        for u in (r.undecided if not c.expect_fail else []):
             (checker_errors if u.startswith('checker error') else undecided).append('%s: %s' % (c.name, u))
         for o in r.obligations:
             e = ob.setdefault(o['name'], {'contract': c.name, 'n': 0, 'discharged': 0, 'failed': 0,
@@ -193,7 +196,7 @@ def report(a, seed, mine, results, t0):
     for idx, (c, o) in enumerate(failing):
         k = o['name']
         per_ob[k] = per_ob.get(k, 0) + 1
-        if per_ob[k] > 60:
+        if per_ob[k] > 60 or (o['model'] or {}).get('skipped'):
             continue
         wit = [kf['witness'] for kf in known if kf['obligation'] == k]
         cs = case_for(c, o['model'], idx, wit)
@@ -211,7 +214,7 @@ def report(a, seed, mine, results, t0):
         if c.expect_fail:
             continue
         lim = 3 if a.tier == 'quick' else 12
-        for s in r.samples[:lim]:
+        for s in [x for x in r.samples if not x.get('havocked')][:lim]:
             xc_cases.append(case_for(c, s, len(xc_cases)))
             xc_expect.append((c, s.get('outcome')))
     xc = {'inputs': len(xc_cases), 'agree': 0, 'disagree': []}
@@ -238,7 +241,7 @@ def report(a, seed, mine, results, t0):
         name = o['name']
         short = name[len(c.name) + 1:] if name.startswith(c.name + '/') else name.split('/')[-1]
         obs = obs_by_id.get(idx)
-        if obs is None and per_ob.get(name, 0) > 60:
+        if obs is None and (per_ob.get(name, 0) > 60 or (o['model'] or {}).get('skipped')):
             continue
         okc, why = confirm(c, short, obs)
         matched = None
